@@ -20,6 +20,7 @@ package websockets
 // (raw in protocol 0, base64-decoded otherwise); exactly one message is queued per successful call, none on error.
 //@ func (*Connection).SendClientMessage props(C11,C12,C07)
 //@   requires conn != nil && conn.clientMessages != nil && conn.done != nil
+//@   assigns jsonobjects
 //@   ghost sends int = 0
 //@   send clientMessages
 //@     assert[C11:one-message-per-call] sends == 0 && arg0 == conn.clientMessages
@@ -32,6 +33,7 @@ package websockets
 // ReadServerMessages: the reply is the serialisation, in receive order, of exactly the messages received in this call.
 //@ func (*Connection).ReadServerMessages props(C11,C12,C07)
 //@   requires conn != nil && conn.serverMessages != nil
+//@   assigns nothing
 //@   ghost n int = 0
 //@   ghost k int = 0
 //@   ghost lastMsg *message = nil
@@ -59,6 +61,7 @@ package websockets
 // under the injection path are added, with the injected values, and the message type is kept.
 //@ func injectWebsocketMessage props(C11,C07)
 //@   requires len(injectionPath) >= 1
+//@   assigns jsonobjects
 //@   loop 1
 //@     invariant[C11:descended-into-an-object] idx >= 0 ==> currJSONComponent != nil
 //@   ensures[C11:nil-message-is-an-error] msg == nil ==> r1 != nil && r0 == nil
@@ -74,10 +77,15 @@ package websockets
 // connection (see the type clause): the safety obligations of the two statements are the known findings of C12.
 //@ func (*Connection).Close props(C12,C07)
 //@   requires conn != nil && conn.clientMessages != nil
+//@   assigns nothing
 //@   send clientMessages
 //@     assert[C12:close-frame-queued-first] arg0 == conn.clientMessages && arg1 != nil && arg1.Type == 8
 
 // ---- the shim endpoints (C12, C13, C09) ----
+// Table invariant (rely/guarantee): every value in the session table is a non-nil *Connection with all three of its
+// channels/functions set. The open handler is the only writer and guarantees it at Store; the other handlers rely
+// on it at Load.
+//@ pure connComplete(c ref) bool = asConn(c).clientMessages != nil && asConn(c).serverMessages != nil && asConn(c).done != nil
 // Every handler commits exactly one status from {200, 400, 408, 500}; on an error status nothing else is written.
 
 // open, inner handler (wrapped by the session handler): the only peer ever dialled is ws://<configured backend host>;
@@ -90,6 +98,8 @@ package websockets
 //@     assert[C13:target-is-ws-on-the-backend-host] targetURL.Scheme == "ws" && targetURL.Host == host && targetURL.Opaque == "" && targetURL.User == nil
 //@     assert[C13:only-path-and-query-from-the-client] targetURL.Path == r.URL.Path && targetURL.RawPath == r.URL.RawPath && targetURL.RawQuery == r.URL.RawQuery
 //@     do tgt = ret0
+//@   call (*sync.Map).Store
+//@     assert[C12:only-complete-connections-are-registered] arg0 == &connections && conn != nil && connComplete(conn) && typeis(arg2, "*websockets.Connection") && unboxRef(arg2, "*websockets.Connection") == conn
 //@   call NewConnection
 //@     assert[C13:dial-only-the-forced-target] dials == 0 && arg1 == tgt
 //@     assert[C09:handshake-headers-are-the-requests] arg2 == r.Header
@@ -114,10 +124,11 @@ package websockets
 //@   ghost deleted bool = false
 //@   ghost closedConn bool = false
 //@   call (*sync.Map).Load
-//@     assert[C12:lookup-the-named-session] arg0 == connections && typeis(arg1, "string") && ifaceStr(arg1) == msg.ID
+//@     assert[C12:lookup-the-named-session] arg0 == &connections && typeis(arg1, "string") && ifaceStr(arg1) == msg.ID
+//@     assume ret1 && typeis(ret0, "*websockets.Connection") ==> unboxRef(ret0, "*websockets.Connection") != nil && connComplete(unboxRef(ret0, "*websockets.Connection"))
 //@     do found = ret1
 //@   call (*sync.Map).Delete
-//@     assert[C12:remove-the-named-session] found && arg0 == connections && ifaceStr(arg1) == msg.ID
+//@     assert[C12:remove-the-named-session] found && arg0 == &connections && ifaceStr(arg1) == msg.ID
 //@     do deleted = true
 //@   call (*Connection).Close
 //@     assert[C12:close-the-looked-up-connection] found && deleted && arg0 == conn
@@ -133,7 +144,8 @@ package websockets
 //@   ghost sent int = 0
 //@   ghost failed bool = false
 //@   call (*sync.Map).Load
-//@     assert[C12:lookup-the-named-session] !failed && arg0 == connections && typeis(arg1, "string") && ifaceStr(arg1) == msg.ID && msg == msgs[idx] && sent == idx
+//@     assert[C12:lookup-the-named-session] !failed && arg0 == &connections && typeis(arg1, "string") && ifaceStr(arg1) == msg.ID && msg == msgs[idx] && sent == idx
+//@     assume ret1 && typeis(ret0, "*websockets.Connection") ==> unboxRef(ret0, "*websockets.Connection") != nil && connComplete(unboxRef(ret0, "*websockets.Connection"))
 //@   call (*Connection).SendClientMessage
 //@     assert[C11:forward-in-array-order] !failed && sent == idx && arg0 == conn && arg1 == msg.Message && msg == msgs[idx] && arg2 == enableWebsocketInjection
 //@     do failed = ret0 != nil
@@ -155,7 +167,8 @@ package websockets
 //@   ghost polled bool = false
 //@   ghost deleted bool = false
 //@   call (*sync.Map).Load
-//@     assert[C12:lookup-the-named-session] arg0 == connections && typeis(arg1, "string") && ifaceStr(arg1) == msg.ID
+//@     assert[C12:lookup-the-named-session] arg0 == &connections && typeis(arg1, "string") && ifaceStr(arg1) == msg.ID
+//@     assume ret1 && typeis(ret0, "*websockets.Connection") ==> unboxRef(ret0, "*websockets.Connection") != nil && connComplete(unboxRef(ret0, "*websockets.Connection"))
 //@     do found = ret1
 //@   call (*Connection).ReadServerMessages
 //@     assert[C12:poll-the-looked-up-connection] found && arg0 == conn && !polled
@@ -163,7 +176,7 @@ package websockets
 //@     do readErr = ret1 != nil
 //@     do gotNil = ret1 == nil && ret0 == nil
 //@   call (*sync.Map).Delete
-//@     assert[C12:drop-only-a-dead-session] polled && readErr && arg0 == connections && ifaceStr(arg1) == msg.ID
+//@     assert[C12:drop-only-a-dead-session] polled && readErr && arg0 == &connections && ifaceStr(arg1) == msg.ID
 //@     do deleted = true
 //@   ensures[C12:poll-status] rwWrites[w] >= 1 && (rwStatus[w] == 200 || rwStatus[w] == 400 || rwStatus[w] == 408 || rwStatus[w] == 500)
 //@   ensures[C12:poll-unknown-session-is-400] !found && rwStatus[w] != 500 ==> rwStatus[w] == 400
